@@ -445,8 +445,8 @@ class RotationRng(Machine):
 
     def _check3d(self, r, ref, axis, angle):
         ctx = self.ctx
-        if axis is None or angle is None:
-            ctx.fail("axis_angle_reconstructs", "3d_no_answer", "R=%r" % (ref.tolist(),))
+        if axis is None or angle is None or not np.isfinite(angle) or not np.all(np.isfinite(np.asarray(axis, float))):
+            ctx.fail("axis_angle_reconstructs", "3d_no_answer", "R=%r -> axis=%r angle=%r" % (ref.tolist(), axis, angle))
             return
         axis = np.asarray(axis, float)
         ctx.require(abs(np.linalg.norm(axis) - 1) < 1e-9, "axis_angle_reconstructs", "3d_axis_not_unit",
@@ -454,7 +454,7 @@ class RotationRng(Machine):
         rec = rodrigues(axis, float(angle))
         e = float(np.abs(rec - ref).max())
         ctx.err("axis_angle_3d", e)
-        if e >= 1e-6:
+        if not (e < 1e-6):      # also true for a non-finite axis or angle
             kind = "3d_sign" if float(np.abs(rec.T - ref).max()) < 1e-6 else "3d_wrong"
             ctx.fail("axis_angle_reconstructs", kind,
                      "R=%r axis=%r angle=%r err=%g" % (ref.tolist(), axis.tolist(), float(angle), e))
